@@ -105,7 +105,7 @@ func c12CrossCheckPatterns(run *evid.Run, spaceInfo *[]map[string]any, capsHit *
 	}
 	t0 := time.Now()
 	sub := evid.Start("C12x", "exploration") // violations of the channel world itself are C01's business
-	agg := chanmc.RunSpaces(sub, spaces, time.Now().Add(4*time.Minute), 0)
+	agg := chanmc.RunSpaces(sub, spaces, time.Now().Add(6*time.Minute), 0)
 
 	table := map[string]bool{}
 	for pending, ps := range c12Patterns {
